@@ -80,10 +80,17 @@ Definition run_C05 (op : Z) (args : list val) : val :=
           VList [VList [m; VBytes ssig; VBytes spk];
                  vbool (match m with VInt 0 => val_eqb r0 (VInt 0) | _ => is_validation_val r0 end)]
       | None => bad_args end
-  | 3, [_; _; _; _; _; VErr c] => VList [VErr c; unconstrained]
-  | _, [_; _; _; _; _; _; _; _; _; _; VErr c] =>
-      (* signing itself raised (SignatureHash refuses SIGHASH_SINGLE without a matching output):
-         outside the property's quantifier *)
-      VList [VErr c; unconstrained]
+  | 3, [_; tv; VInt idx; VInt ht; _; VErr c] =>
+      (* signing itself raised: right only as the ValueError for SIGHASH_SINGLE without a matching output *)
+      match tx_of_val tv with
+      | Some t => VList [VErr c; vbool (must_refuse t idx [ht] && (c =? exn_code ValueError))]
+      | None => bad_args end
+  | _, [_; _; _; tv; VInt idx; VList hts; _; _; _; _; VErr c] =>
+      (* signing itself raised: SignatureHash must refuse (ValueError) exactly SIGHASH_SINGLE without a
+         matching output; a template script it refuses for any other reason is a violation of
+         "signed inputs verify" *)
+      match tx_of_val tv with
+      | Some t => VList [VErr c; vbool (must_refuse t idx (ints hts) && (c =? exn_code ValueError))]
+      | None => bad_args end
   | _, _ => bad_args
   end.
